@@ -86,6 +86,104 @@ static void clean_root(void)
   mkdir(root, 0755);
 }
 
+
+/* ---------- layered reads: callback policy, fopen log ---------- */
+static int in_lib = 0;                 /* a library call is in progress */
+static char *open_log[256]; static int n_open = 0;
+static char *check_log[256]; static int check_ok[256]; static int n_check = 0;
+static char *reject[64]; static int n_reject = 0;
+static int cb_mode = 0;                /* 0: no callback, 1: reject listed paths */
+static int cb_data_token = 4711; static int cb_data_bad = 0;
+
+FILE *__real_fopen(const char *path, const char *mode);
+FILE *__wrap_fopen(const char *path, const char *mode)
+{
+  FILE *f = __real_fopen(path, mode);
+  if (in_lib && f && mode[0] == 'r' && n_open < 256) open_log[n_open++] = strdup(path);
+  return f;
+}
+
+static const char *virt(const char *s)
+{
+  if (s && strncmp(s, root, rootlen) == 0 && (s[rootlen] == '/' || s[rootlen] == 0)) return s[rootlen] ? s + rootlen : "/";
+  return s;
+}
+
+static bool the_callback(const char *filename, const void *data)
+{
+  if (data != &cb_data_token) cb_data_bad = 1;
+  int ok = 1;
+  for (int i = 0; i < n_reject; i++) if (!strcmp(reject[i], virt(filename))) ok = 0;
+  if (n_check < 256) { check_log[n_check] = strdup(filename); check_ok[n_check++] = ok; }
+  return ok;
+}
+
+static void begin_lib(void) { in_lib = 1; n_open = 0; n_check = 0; }
+static void end_lib(void)   { in_lib = 0; }
+static void print_logs(void)
+{
+  printf(" checks=");
+  for (int i = 0; i < n_check; i++) { if (i) putchar(','); enc(virt(check_log[i])); printf(":%d", check_ok[i]); free(check_log[i]); }
+  printf(" opens=");
+  for (int i = 0; i < n_open; i++) { if (i) putchar(','); enc(virt(open_log[i])); free(open_log[i]); }
+  if (cb_data_bad) printf(" CALLBACK-DATA-CHANGED");
+  n_check = n_open = 0;
+}
+
+/* "x<hex>" list separated by ',' ("-" = empty) -> NULL terminated array of malloc'd strings */
+static char **dec_list(const char *tok, int *n)
+{
+  char **r = calloc(130, sizeof(char *)); *n = 0;
+  if (tok[0] == '-') return r;
+  char *c = strdup(tok);
+  for (char *p = strtok(c, ","); p && *n < 128; p = strtok(NULL, ",")) r[(*n)++] = dec(p);
+  free(c);
+  return r;
+}
+static void free_list(char **l) { for (int i = 0; l[i]; i++) free(l[i]); free(l); }
+
+/* map an optional virtual directory argument */
+static char *vdir(const char *tok)
+{
+  char *v = dec(tok); if (!v) return NULL;
+  char *r = (v[0] == '/') ? vpath(v) : strdup(v);
+  free(v); return r;
+}
+
+/* option string with virtual paths -> real paths (PARSING_DIRS=, ROOT_PREFIX=) */
+static char *map_options(const char *opts)
+{
+  char *out = calloc(1, strlen(opts) * 2 + 64 * (rootlen + 2) + 16), *o = out;
+  char *c = strdup(opts), *save = c, *item;
+  int first = 1;
+  while ((item = strsep(&c, ";")) != NULL) {
+    if (!first) *o++ = ';';
+    first = 0;
+    if (!strncmp(item, "PARSING_DIRS=", 13)) {
+      o = stpcpy(o, "PARSING_DIRS=");
+      char *v = item + 13, *d; int f2 = 1;
+      while ((d = strsep(&v, ":")) != NULL) {
+        if (!f2) *o++ = ':';
+        f2 = 0;
+        if (d[0] == '/') o = stpcpy(o, root);
+        o = stpcpy(o, d);
+      }
+    } else if (!strncmp(item, "ROOT_PREFIX=", 12)) {
+      o = stpcpy(o, "ROOT_PREFIX="); o = stpcpy(o, root); o = stpcpy(o, item + 12);
+    } else o = stpcpy(o, item);
+  }
+  free(save);
+  return out;
+}
+
+static void finish_read(int o, econf_err e, econf_file *res)
+{
+  objs[o] = res;
+  printf("rc=%d obj=%d", e, res ? 1 : 0);
+  print_logs();
+  putchar('\n');
+}
+
 /* after all handles of a scenario were released: nothing may be left */
 static int started = 0;
 static void end_scenario(void)
@@ -99,9 +197,15 @@ static void end_scenario(void)
 
 static econf_file *obj(const char *tok) { int i = atoi(tok); return (i >= 0 && i < MAXOBJ) ? objs[i] : NULL; }
 
+static void dump_body(econf_file *kf);
+static void dump_inline(econf_file *kf) { dump_body(kf); }
 static void dump(econf_file *kf)
 {
   if (!kf) { printf("noobj\n"); return; }
+  dump_body(kf); putchar('\n');
+}
+static void dump_body(econf_file *kf)
+{
   printf("dump n=%zu spare=%zu groups=", kf->length, kf->alloc_length - kf->length);
   enc_list(kf->groups, (size_t) kf->group_count);
   printf(" d=%d c=%d path=", (unsigned char) kf->delimiter, (unsigned char) kf->comment);
@@ -114,7 +218,6 @@ static void dump(econf_file *kf)
     enc(e->comment_before_key); putchar(' '); enc(e->comment_after_value);
     printf(" %" PRIu64 " %d", e->line_number, e->quotes ? 1 : 0);
   }
-  putchar('\n');
 }
 
 static int kind_of(const char *k)
@@ -284,6 +387,9 @@ int main(int argc, char **argv)
       for (int i = 0; i < MAXOBJ; i++) if (objs[i]) { econf_free(objs[i]); objs[i] = NULL; }
       end_scenario();
       clean_root();
+      econf_reset_security_settings();
+      { const char *none[] = { NULL }; econf_set_conf_dirs(none); }
+      cb_mode = 0; for (int i = 0; i < n_reject; i++) free(reject[i]); n_reject = 0; cb_data_bad = 0;
       printf("reset\n");
     } else if (!strcmp(c, "newkf")) {
       int o = atoi(t[1]); if (objs[o]) econf_free(objs[o]); objs[o] = NULL;
@@ -371,6 +477,69 @@ int main(int argc, char **argv)
       econf_file *kf = obj(t[1]);
       econf_set_delimiter_tag(kf, (char) atoi(t[2])); econf_set_comment_tag(kf, (char) atoi(t[3]));
       printf("rc=0\n");
+    } else if (!strcmp(c, "fsfile") || !strcmp(c, "fslink") || !strcmp(c, "fsdir")) {
+      char *p = dec(t[1]); char *real = vpath(p);
+      mkparents(real);
+      int ui = c[2] == 'd' ? 2 : 3;
+      if (c[2] == 'f') { char *content = dec(t[2]); FILE *f = __real_fopen(real, "wb"); fwrite(content, 1, declen(t[2]), f); fclose(f); free(content); }
+      else if (c[2] == 'l') { char *tg = dec(t[2]); char *rt = (tg[0] == '/' && strcmp(tg, "/dev/null")) ? vpath(tg) : strdup(tg); unlink(real); if (symlink(rt, real)) perror("symlink"); free(tg); free(rt); }
+      else mkdir(real, 0755);
+      if (lchown(real, (uid_t) atoi(t[ui]), (gid_t) atoi(t[ui + 1]))) perror("lchown");
+      printf("rc=0\n"); free(p); free(real);
+    } else if (!strcmp(c, "sec")) {
+      econf_reset_security_settings();
+      if (t[1][0] != '-') econf_requireOwner((uid_t) atoi(t[1]));
+      if (t[2][0] != '-') econf_requireGroup((gid_t) atoi(t[2]));
+      econf_followSymlinks(t[3][0] != '1');
+      printf("rc=0\n");
+    } else if (!strcmp(c, "confdirs")) {
+      int n; char **l = dec_list(t[1], &n);
+      printf("rc=%d\n", econf_set_conf_dirs((const char **) l)); free_list(l);
+    } else if (!strcmp(c, "cb")) {
+      for (int i = 0; i < n_reject; i++) free(reject[i]);
+      n_reject = 0; cb_mode = strcmp(t[1], "none") ? 1 : 0;
+      if (cb_mode && nt > 2) { int n; char **l = dec_list(t[2], &n); for (int i = 0; i < n && i < 64; i++) reject[n_reject++] = strdup(l[i]); free_list(l); }
+      printf("rc=0\n");
+    } else if (!strcmp(c, "newopts")) {
+      int o = atoi(t[1]); if (objs[o]) econf_free(objs[o]); objs[o] = NULL;
+      char *opts = dec(t[2]); char *m = opts ? map_options(opts) : NULL;
+      printf("rc=%d\n", econf_newKeyFile_with_options(&objs[o], m)); free(opts); free(m);
+    } else if (!strcmp(c, "readfile")) {
+      int o = atoi(t[1]); if (objs[o]) econf_free(objs[o]); objs[o] = NULL;
+      char *p = dec(t[2]), *real = vpath(p), *dl = dec(t[3]), *cm = dec(t[4]);
+      econf_file *res = NULL; begin_lib();
+      econf_err e = cb_mode ? econf_readFileWithCallback(&res, real, dl, cm, the_callback, &cb_data_token) : econf_readFile(&res, real, dl, cm);
+      end_lib(); finish_read(o, e, res); free(p); free(real); free(dl); free(cm);
+    } else if (!strcmp(c, "readdirs")) {
+      int o = atoi(t[1]); if (objs[o]) econf_free(objs[o]); objs[o] = NULL;
+      char *d1 = vdir(t[2]), *d2 = vdir(t[3]), *name = dec(t[4]), *sfx = dec(t[5]), *dl = dec(t[6]), *cm = dec(t[7]);
+      econf_file *res = NULL; begin_lib();
+      econf_err e = cb_mode ? econf_readDirsWithCallback(&res, d1, d2, name, sfx, dl, cm, the_callback, &cb_data_token)
+                            : econf_readDirs(&res, d1, d2, name, sfx, dl, cm);
+      end_lib(); finish_read(o, e, res); free(d1); free(d2); free(name); free(sfx); free(dl); free(cm);
+    } else if (!strcmp(c, "readconfig")) {
+      int o = atoi(t[1]);
+      char *proj = dec(t[2]), *usr = dec(t[3]), *name = dec(t[4]), *sfx = dec(t[5]), *dl = dec(t[6]), *cm = dec(t[7]);
+      econf_file *res = objs[o];
+      if (!res || (!res->root_prefix && res->parse_dirs_count == 0)) { printf("driver-error readconfig needs ROOT_PREFIX or PARSING_DIRS\n"); exit(3); }
+      begin_lib();
+      econf_err e = cb_mode ? econf_readConfigWithCallback(&res, proj, usr, name, sfx, dl, cm, the_callback, &cb_data_token)
+                            : econf_readConfig(&res, proj, usr, name, sfx, dl, cm);
+      end_lib(); finish_read(o, e, res); free(proj); free(usr); free(name); free(sfx); free(dl); free(cm);
+    } else if (!strcmp(c, "history")) {
+      char *d1 = vdir(t[1]), *d2 = vdir(t[2]), *name = dec(t[3]), *sfx = dec(t[4]), *dl = dec(t[5]), *cm = dec(t[6]);
+      econf_file **files = NULL; size_t n = 0; begin_lib();
+      econf_err e = cb_mode ? econf_readDirsHistoryWithCallback(&files, &n, d1, d2, name, sfx, dl, cm, the_callback, &cb_data_token)
+                            : econf_readDirsHistory(&files, &n, d1, d2, name, sfx, dl, cm);
+      end_lib();
+      printf("rc=%d n=%zu", e, e ? (size_t) 0 : n); print_logs();
+      if (e == ECONF_SUCCESS) { for (size_t i = 0; i < n; i++) { printf(" || "); eol = ' '; dump_inline(files[i]); econf_free(files[i]); } free(files); }
+      else if (files) printf(" HISTORY-POINTER-SET-ON-ERROR");
+      putchar('\n');
+      free(d1); free(d2); free(name); free(sfx); free(dl); free(cm);
+    } else if (!strcmp(c, "errloc")) {
+      char *fn = NULL; uint64_t ln = 0; econf_errLocation(&fn, &ln);
+      printf("loc file="); enc_path(fn); printf(" line=%" PRIu64 "\n", ln); free(fn);
     } else if (!strcmp(c, "errstring")) {
       printf("rc=0 v="); enc(econf_errString((econf_err) atoi(t[1]))); putchar('\n');
     } else if (!strcmp(c, "free")) {
